@@ -78,7 +78,7 @@ rejected there). -/
 def powKind (r : E) (rty : Ty) : PowKind :=
   match r with
   | .int n => if n ≥ 0 then .nonNegLit else .negLit
-  | .neg (.int _) => .negLit
+  | .neg (.int n) => if n = 0 then .nonNegLit else .negLit      -- `-0` is the literal 0 (extract_int_literal negates the value)
   | _ => if rty = .float then .float else .variable
 
 def cvStr : Option CV → Option (List Char)
